@@ -89,6 +89,34 @@ def run(ctx):
                         case = src[basei + i] if basei + i < len(src) else {"index": basei + i}
                         acc.append((kind, case))
 
+    # thorough: the same harness built with the race detector, stressing the leaf cache (capacity 1, TTL 300 ms,
+    # 48 concurrent handshakes x 12 rounds, poked entries, validity 2 s)
+    race = None
+    if ctx.tier == "thorough" and not ctx.replay and hb is not None:
+        hdir = os.path.join(common.VERIF, "harness")
+        rbin = os.path.join(ctx.work, "harness-c07-race")
+        rc, rlog = common.sh([common.go_cmd(), "build", "-race", "-modfile=" + os.path.join(ctx.work, "go.mod"), "-tags", "verif",
+                              "-o", rbin, "./cmd/c07"], cwd=hdir, env=common.go_env(), timeout=900)
+        if rc != 0:
+            ob_failed.append("race build of the harness failed: " + rlog[-400:])
+        else:
+            rdir = os.path.join(ctx.work, "race")
+            os.makedirs(rdir, exist_ok=True)
+            rc, rout = common.sh([rbin, "-seed", str(ctx.seed), "-tier", "race", "-out", rdir], timeout=900)
+            nraces = rout.count("WARNING: DATA RACE")
+            rmeta = {}
+            try:
+                rmeta = json.load(open(os.path.join(rdir, "meta.json")))
+            except Exception:
+                pass
+            race = {"cmd": "go build -race -tags verif ./cmd/c07; harness-c07-race -tier race", "exit": rc, "data_races": nraces,
+                    "handshakes": (rmeta.get("counts") or {}).get("handshake"), "cache_cases": (rmeta.get("counts") or {}).get("cache")}
+            if nraces or rc != 0:
+                i = rout.find("WARNING: DATA RACE")
+                ctx.violation("race-detector-report", {"kind": "race", "tier": "race", "report": rout[i:i + 3000] if i >= 0 else rout[-1500:]},
+                              nraces > 0, "the race detector reported %d data race(s) (exit %s) while concurrent handshakes shared the "
+                              "capacity-1 leaf cache: %s" % (nraces, rc, (rout[i:i + 600] if i >= 0 else rout[-400:])))
+
     def smallest(cases):
         # prefer the plainest witness: verification on, a valid origin, IPv4 literal
         return min(cases, key=lambda kc: (bool(kc[1].get("insecure")), kc[1].get("origin", "valid") != "valid",
@@ -157,6 +185,7 @@ def run(ctx):
         "distribution": dist,
         "plaintext_leaks_observed": [{"case": o["case"], "plaintext_cookie": o.get("plaintext_cookie"), "authority": o.get("authority")} for o in leaks][:5],
         "notes_from_harness": meta.get("notes"),
+        "race_run": race,
         "samples": meta.get("samples") or [{"none": "harness did not run"}],
     }
     ctx.finish("proof", coverage, [
